@@ -153,6 +153,10 @@ func (c *Conn) getRedo() [][]byte {
 	// so instead let's leverage a select. as soon as it blocks (due to chan close or no more input but not closed yet) we know we're
 	// done reading and move on. it's easy to prove in the implementer that we don't send any more data to In after calling this
 	defer c.clearRedo()
+	// the conn is dead (close() has run): wait until HandleData and checkEOF are gone. HandleData may still be
+	// taking lines out of In (its select picks between In and shutdown at random); a line it takes after we have
+	// collected keepSafe would be added to a keepSafe nobody reads again, and be lost without being counted.
+	c.wg.Wait()
 	for {
 		select {
 		case buf := <-c.In:
